@@ -52,7 +52,7 @@ def kernel_conversions(rep, seed):
             rep.incomplete('conv:' + sig, 'conversion-forwarding', '', str(e))
 
 
-def predicates(rep):
+def predicates(rep, seed=0):
     mod = front.module('avx2')
     x = Poly.var('in1[0]')
     specs = [('equal', 'Goldilocks::equal(%s const&, %s const&)' % (E, E), (x - Poly.var('in2[0]')).modp(), 'in1 = in2 (mod p)'),
@@ -86,7 +86,19 @@ def predicates(rep):
                                              '%s is exactly the residue test %s (depends on the operands only through their canonical values)' % (tag, text)
                                              if good else '%s is not the residue test %s: paths %r' % (tag, text, [(list(a.values()), r) for a, r in leaves]))
         except (Incomplete, IRError, Sink) as e:
-            rep.incomplete('pred:' + tag, 'predicate-residue-only', site_of(mod, name), str(e))
+            if 'outside a contracted kernel' in str(e):
+                # the predicate does raw integer arithmetic on the representations: decide it on exact integers instead
+                smod = front.module('avx2', sroa=True)
+                ps = harness.describe(mod, name)
+                two = len(ps) == 2
+                cst = {'isOne': 1, 'isNegone': P - 1}.get(tag, 0)
+                cells = [(0, 0, 'a', 'u64')] + ([(1, 0, 'b', 'u64')] if two else [])
+                ex = (lambda A: A['a'] - A['b']) if two else (lambda A, c_=cst: A['a'] - c_)
+                r = kprove.prove_predicate(smod, smod.find(sig), len(ps), cells, ex, seed=seed)
+                kcheck.record(rep, 'pred:' + tag, 'predicate-kernel', site_of(mod, name), r,
+                              '%s on raw representations is the residue test %s for all 64-bit operands' % (tag, text))
+            else:
+                rep.incomplete('pred:' + tag, 'predicate-residue-only', site_of(mod, name), str(e))
 
 
 def explore_mpz(mod, name, build_args, maxpaths=64):
@@ -265,7 +277,7 @@ def run(rep, tier, seed):
                      'of the dividend, get_ui/get_si obligations), every path over undecided signs and comparisons is explored and compared with the '
                      'specification on its interval; round trips as corollaries')
     kernel_conversions(rep, seed)
-    predicates(rep)
+    predicates(rep, seed)
     mod = front.module('avx2')
     check_into_field(rep, mod, 'fromString', 'Goldilocks::fromString(%s&, %s const&, int)' % (E, STR), scalar=False)
     check_into_field(rep, mod, 'fromScalar', 'Goldilocks::fromScalar(%s&, %s const&)' % (E, MPZ), scalar=True)
